@@ -63,8 +63,14 @@ def one_history(ctx, index: int, rng: random.Random):
     shift = [0.0] * nd
     integer = False
     if rng.random() < 0.25:
-        s = rng.choice([0.5, 0.05, 0.25, 1.7])
-        opts["bin_shift"] = s
+        s = rng.choice([0.5, 0.05, 0.25, 1.7, 0.1])
+        if rng.random() < 0.3:
+            # the shift given as a float32 / float16 scalar: its float64 value is the shift that counts
+            s_arg = rng.choice([np.float32, np.float16])(s)
+            s = float(s_arg)
+            opts["bin_shift"] = s_arg
+        else:
+            opts["bin_shift"] = s
         shift = [s] * nd
     align = True
     if rng.random() < 0.15 and "bin_shift" not in opts:
